@@ -5,7 +5,7 @@ result is `Except PyErr`. Accessors: lean/Cellml/Tie/CmetaView.lean; tie theorem
 GROUP = {
     'name': 'CmetaQ',
     'imports': ['Cellml.Tie.CmetaView'],
-    'header': 'open Model',
+    'header': 'open Cellml.Tie.PCmeta\nopen Model',
     'functions': [
         {'file': 'cellmlmanip/model.py',
          'func': 'Model.has_cmeta_id',
